@@ -51,7 +51,7 @@ Proof.
   destruct fuel' as [|k']; [lia|]. cbn [grow]. unfold bind_r in *.
   assert (Hf : done (f (with_pos s mark))) by (destruct (f (with_pos s mark)) as [[v| |] s']; cbn in *; [discriminate|discriminate|exact Hd]).
   rewrite (H _ Hf). destruct (f (with_pos s mark)) as [[result| |] s1]; try reflexivity.
-  destruct (negb (truthy result)); [reflexivity|]. destruct (Nat.leb (pos s1) lm); [reflexivity|].
+  destruct (negb (truthy result)); [reflexivity|]. destruct (truthy lr && Nat.leb (pos s1) lm); [reflexivity|].
   apply IH; [lia|exact H|exact Hd].
 Qed.
 
